@@ -154,6 +154,11 @@ def run_monitors(cfg, items, endl, props=None):
     def check_hit(i, k, v, now, where):
         vv = vonly(v)
         if vv is None:
+            d0 = dl.get(k)
+            if kind in ("ut_map", "ut_set") and d0 is not None and now < d0 and lw.get(k):
+                msg = "%s misses key %d at now=%d although its latest successful write expires at %d and it was not erased" % (where, k, now, d0)
+                viol("C05", i, msg)
+                viol("C09", i, msg)
             # observed missing: no resurrection until the next write
             if k in lw:
                 lw[k] = set()
@@ -283,6 +288,7 @@ def run_monitors(cfg, items, endl, props=None):
             addressed.update(it["keys"])
             for k in it["keys"]:
                 uses.pop(k, None); created.pop(k, None); cnt.pop(k, None)
+                dl[k] = None        # possibly erased: no claim about its expiry any more
         elif n in ("find", "find_use"):
             k = it["k"]
             v = pval(o)
@@ -363,6 +369,17 @@ def run_monitors(cfg, items, endl, props=None):
                     allowed = len(ks)
                 reallost = lost - set(ks) if n != "insert" else lost - {it["k"]}
                 # a key addressed by the insert and lost: an update cannot remove its own key
+                if len(reallost) > allowed and kind in TTLK:
+                    viol("C05", i, "%s removed entries %s that had not reached their expiry (not allowed as eviction victims)" % (n, sorted(reallost)))
+                if n == "insert" and len(reallost) > allowed and kind == "fifo":
+                    res_ = [k for k in pre_found]
+                    if all(k in created for k in res_):
+                        exp_ = min(res_, key=lambda k: created[k])
+                        if reallost != {exp_}:
+                            viol("C12", i, "insert removed %s; the earliest inserted entry is %d (size %d of %d)" % (sorted(reallost), exp_, pre["size"], cfg["cap"]))
+                if n == "insert" and kind == "rr" and o == "b1" and it["k"] not in pre_found and len(reallost) != allowed:
+                    viol("C15", i, "insert of a new key removed %s (size before %d, capacity %d): exactly %d prior resident(s) must go" % (
+                        sorted(reallost), pre["size"], cfg["cap"], allowed))
                 if len(reallost) > allowed:
                     viol("C03", i, "%s removed live entries %s (at most %d allowed; size before %d, capacity %d)" % (n, sorted(reallost), allowed, pre["size"], cfg["cap"]))
                 if n == "insert" and allowed == 1 and kind in BOUNDED and o == "b1":
@@ -410,6 +427,10 @@ def run_monitors(cfg, items, endl, props=None):
             else:
                 if lost:
                     viol("C03", i, "%s removed live entries %s" % (n, sorted(lost)))
+                    if kind in TTLK:
+                        viol("C05", i, "%s removed entries %s that had not reached their expiry" % (n, sorted(lost)))
+                        if n == "clean":
+                            viol("C17", i, "clean_expired_values() removed live entries %s" % sorted(lost))
             for d_ in (uses, created, cnt):
                 for k in [k for k in d_ if k not in post_found]:
                     d_.pop(k, None)
@@ -419,6 +440,8 @@ def run_monitors(cfg, items, endl, props=None):
                     continue
                 if vonly(pre["view"][k]) != vonly(post["view"][k]):
                     viol("C03", i, "%s changed the value of untouched key %d: %s -> %s" % (n, k, pre["view"][k], post["view"][k]))
+                    if kind == "rr":
+                        viol("C15", i, "%s overwrote the entry of resident key %d (%s -> %s): the slot of a live entry was handed out" % (n, k, pre["view"][k], post["view"][k]))
             # ut_map / ut_set: right after a purging call size() = number of live keys
             if kind in ("ut_map", "ut_set") and n in ("insert", "insert_range", "erase", "erase_range", "find", "find_range",
                                                        "find_range_fill", "clean"):
